@@ -57,7 +57,7 @@ def codegen(engine, crate_dir, harnesses, features, workdir, log):
     with Lock(engine):
         own = os.path.join(target, "kani", "x86_64-unknown-linux-gnu", "debug", "build", crate)
         shutil.rmtree(own, ignore_errors=True)   # never reuse symbol tables of an older source tree
-        cmd = ["cargo", "kani", "--only-codegen", "--target-dir", target, "--exact"]
+        cmd = ["cargo", "kani", "-Z", "stubbing", "--only-codegen", "--target-dir", target, "--exact"]
         if features:
             cmd += ["--features", ",".join(features)]
         for h in harnesses:
